@@ -199,11 +199,17 @@ def oStep (s : OSt) : Ev → OSt
     let hs := s.hooks ++ [h]
     let s := { s with hooks := hs }
     if isPrefixOf' hs [.started, .draining, .stopped] then s else s.flag "c15-hook-order"
-  | .lost .. | .dropped _ | .panicked | .portClosed _ | .handled .. | .installed _ => s
+  | .lost .. | .dropped _ | .panicked | .portClosed _ | .handled .. | .installed _ | .abandoned _ => s
   | .snap up q act _cap live wq =>
     let blocked := up && q.isNone
     let s := if !up && s.up && !s.hooks.contains .stopped then s.flag "c15-stopped-without-hook" else s
     let s := if s.prevIdleDrain && up then s.flag "c15-drain-not-stopped" else s
+    -- C13 drained exit: the factory stops only when nobody holds a job any more — every job it
+    -- took in before DrainRequests was started, discarded or handed back by the time it is gone
+    -- (a worker that a shrink flagged draining still counts)
+    let s := if !up && s.up && s.alwaysHandler &&
+        s.jobs.any (fun j => !j.afterDrain && j.started.isNone && j.discards == 0 && !j.returned)
+      then s.flag "c13-job-lost-at-drain" else s
     let s := match q, act with
       | some q, some act =>
         -- C15 limit on the factory queue: a dispatch never grows it beyond L (a queue that was
